@@ -43,6 +43,8 @@ type Obligation struct {
 	Model   string
 	Output  string
 	Replay  *ReplayInfo
+	Probe   string      // "pre"/"post": consistency probe around a call (post counts only when pre is satisfiable)
+	ProbePre *Obligation
 	Confirmed bool // the violation was observed on the real code (bounded runs)
 	FirstIter []string
 	ResultVals []Val // symbolic results at the exit a post obligation belongs to
@@ -159,6 +161,7 @@ type FX struct {
 	depth  int
 	unsupported []string
 	inputs map[string]string
+	probeCount int
 	ghostUsed bool // some contract clause evaluated for this function mentions a ghost variable
 	usesAx map[string]bool
 	usedAssumed map[string]bool // assumed contracts (externs, trusted functions, trusted-ensures clauses) applied at call sites
